@@ -285,6 +285,21 @@ def intersectsSpec (sAff oAff : Bool) (d r1 r2 : K) : Prop :=
   | true, false => ¬ (d + r1 < r2)     -- disc₁ not inside disc₂
   | false, false => True               -- both contain ∞
 
+/-- the finite points of a disk of CP¹ whose boundary circle is `(c, r)`: its bounded side
+(`bounded = true`) or its unbounded side; `strict` leaves the circle itself out -/
+def memDisk (bounded strict : Bool) (c : K × K) (r : K) (z : K × K) : Prop :=
+  match bounded, strict with
+  | true, true => (z.1 - c.1) * (z.1 - c.1) + (z.2 - c.2) * (z.2 - c.2) < r * r
+  | true, false => (z.1 - c.1) * (z.1 - c.1) + (z.2 - c.2) * (z.2 - c.2) ≤ r * r
+  | false, true => r * r < (z.1 - c.1) * (z.1 - c.1) + (z.2 - c.2) * (z.2 - c.2)
+  | false, false => r * r ≤ (z.1 - c.1) * (z.1 - c.1) + (z.2 - c.2) * (z.2 - c.2)
+
+/-- the point at infinity belongs exactly to the disks that are the unbounded side -/
+def memInf (bounded : Bool) : Prop := bounded = false
+
+/-- general position of two circles: not tangent (internally or externally) -/
+def GenPos (d r1 r2 : K) : Prop := d + r2 ≠ r1 ∧ d + r1 ≠ r2 ∧ r1 + r2 ≠ d
+
 end logic
 
 /-! ### array level: boolean-mask assignment as NumPy does it -/
